@@ -77,6 +77,8 @@ def structural(prop, extra):
                 o2 = dict(o)
                 o2["id"] = o["id"].replace("C06/", prop + "/", 1)
                 out.append(o2)
+    if prop in LEAN_LEMMAS and "NOP" not in extras:
+        out += lean_lemmas(prop, os.environ.get("VERIF_TIER_CURRENT", "quick"))
     extra = next((e for e in extras if e in ("REPINV", "GUARDWIN", "DIRECTIVES", "C08TYPES", "INPLACE")), extra)
     if extra in ("REPINV", "GUARDWIN"):
         fr, rep, _prog = _frame()
@@ -461,4 +463,49 @@ def c_stateless():
                 bad.append(f"module-level object `{nm} = {str(rhs)[:40]}`")
         out.append(res(f"C06/NOSTATE/{pkg}/_ext/numerics.pyx", "NOSTATE", "refuted" if bad else "proved", "Cython parser: module-level bindings",
                        "; ".join(bad) or "module level binds only constants, None and aliases of functions", time.time() - t0))
+    return out
+
+
+# ---------------------------------------------------------------------------- machine-checked lemmas (Lean 4 + Mathlib)
+LEAN_LEMMAS = {
+    "C17": [("Rowsum.lean", "rowsum point-update lemma (used as an axiom by the `rowsum` spec function)")],
+    "C19": [("Tiling.lean", "contiguous chunks cover [0,N): ROWLOCAL chunk results assemble to the serial result")],
+    "C08": [("Rowsum.lean", "indexed sums: congruence / empty sum / successor step of the FSUM normal form")],
+}
+
+
+def lean_lemmas(prop, tier):
+    """LEMMA obligations: the Lean file is re-checked by `lean` in the thorough tier; the quick tier compares the file's
+    hash with the hash recorded when it was last checked (lean/CHECKED.json, committed)."""
+    import hashlib
+    import json
+    import subprocess
+    out = []
+    d = os.path.join(build.VERIF, "lean")
+    rec_p = os.path.join(d, "CHECKED.json")
+    rec = json.load(open(rec_p)) if os.path.exists(rec_p) else {}
+    for fn, what in LEAN_LEMMAS.get(prop, []):
+        t0 = time.time()
+        path = os.path.join(d, fn)
+        if not os.path.exists(path):
+            out.append(res(f"{prop}/LEMMA/{fn}", "LEMMA", "inapplicable", "lean", "file missing"))
+            continue
+        txt = open(path).read()
+        h = hashlib.sha256(txt.encode()).hexdigest()
+        if "sorry" in txt or "axiom " in txt:
+            out.append(res(f"{prop}/LEMMA/{fn}", "LEMMA", "refuted", "text scan", "the Lean file contains sorry / axiom"))
+            continue
+        if tier == "thorough":
+            try:
+                r = subprocess.run(["lean", fn], cwd=d, capture_output=True, text=True, timeout=1500)
+                ok = r.returncode == 0 and "error" not in r.stdout and "error" not in r.stderr
+                det = (r.stdout + r.stderr).strip()[-300:] or "no errors, no sorry"
+            except Exception as e:
+                ok, det = None, f"{type(e).__name__}: {e}"
+            st = "proved" if ok else ("undecided" if ok is None else "refuted")
+            out.append(res(f"{prop}/LEMMA/{fn}", "LEMMA", st, "lean 4 + Mathlib (re-checked in this run)", f"{what}; {det}", time.time() - t0))
+        else:
+            st = "proved" if rec.get(fn) == h else "undecided"
+            out.append(res(f"{prop}/LEMMA/{fn}", "LEMMA", st, "lean 4 + Mathlib (hash of the file equals the hash recorded at its last check)",
+                           what if st == "proved" else f"{what}; the file changed since it was last checked - run the thorough tier", time.time() - t0))
     return out
